@@ -189,6 +189,9 @@ func (dist *BetaDistribution) ImportConfig(config ConfigDistribution, t ScalarTy
   if parameters, ok := config.GetParametersAsFloats(); !ok {
     return fmt.Errorf("invalid config file")
   } else {
+    if len(parameters) != 3 {
+      return fmt.Errorf("invalid config file")
+    }
     alpha    := NewScalar(t, parameters[0])
     beta     := NewScalar(t, parameters[1])
     logScale := parameters[2] == 1.0
